@@ -119,6 +119,11 @@ func PredictResponse(handler string, script []string, id int, isHTTP bool, rname
 			ex.Code = cm[0]
 			return
 		}
+		if kind == "reserrbad" {
+			// the error cannot be encoded: the request is still answered
+			ex.Code = "system.internalError"
+			return
+		}
 		if kind == "reserrnomsg" {
 			ex.Payload = errJSON("test.nomsg", "", "", meta())
 			ex.Code = "test.nomsg"
@@ -196,6 +201,8 @@ func PredictResponse(handler string, script []string, id int, isHTTP bool, rname
 				panicked("reserr", "")
 			case "reserrnomsg":
 				panicked("reserrnomsg", "")
+			case "reserrbad":
+				panicked("reserrbad", "")
 			default:
 				if strings.HasPrefix(arg, "reserrmsg:") {
 					panicked(arg, "")
